@@ -25,7 +25,7 @@ func register(p *Prop) { p.Assumptions = append(p.Assumptions, common...); Props
 func init() {
 	register(&Prop{
 		ID:    "C01",
-		Rules: []func(*core.Ctx){ROp, RStk, RBracket, REmptyIter, RSib, RMask, RCrawlPair, RRuneStr, REnumPos, RStackRel, REndZLatest, RCondUnwrap, RNoShortcut},
+		Rules: []func(*core.Ctx){ROp, RStk, RBracket, REmptyIter, RSib, RMask, RCrawlPair, RRuneStr, REnumPos, RStackRel, REndZLatest, RCondUnwrap, RNoShortcut, REnumFull, RRepKind},
 		Explanation: "Static analysis of the bytecode contract between syntax/writer.go (emit sites), syntax/code.go (opcodeSize, opcodeBacktracks, constant blocks) and runner.go (executeDefault's switch): " +
 			"R-OP1 handler/size exists for every emitted opcode; R-OP2 operand/advance constants agree with opcodeSize; R-OP3 backtracking frame shape (push arity vs pop arity vs existence of Back/Back2 clauses, path-enumerated per clause on go/cfg); " +
 			"R-OP4 numeric identity NodeType==InstOp and family strides used by retyping arithmetic; R-OP5 debug tables; R-STK grouping-stack balance of every emitFragment bracket pair. " +
@@ -33,31 +33,31 @@ func init() {
 	})
 	register(&Prop{
 		ID:    "C06",
-		Rules: []func(*core.Ctx){RSurface, RByteUnit, RUnsetPair, RNZero, RPrevInit, RDialectSib, RTentative, RPosixASCII, RUnitCmp, ROffTable, RLazyTable, rDirFoldOnly, RMapState, rCountNOnly, RNodeOpts, RTextSlice, RNilEmpty},
+		Rules: []func(*core.Ctx){RSurface, RByteUnit, RUnsetPair, RNZero, RPrevInit, RDialectSib, RTentative, RPosixASCII, RUnitCmp, ROffTable, RLazyTable, rDirFoldOnly, RMapState, rCountNOnly, RNodeOpts, RTextSlice, RNilEmpty, RRepKind, RSpaceArgs},
 		Explanation: "Structural necessary conditions of the adapter agreeing with the standard library: R-SURFACE (method-set and signature agreement with *regexp.Regexp, on go/types), R-BYTEUNIT (no rune position reaches an []int the adapter fills or a bound of a byte slice: SSA taint from Capture.RuneIndex / RuneLength, sanitised only by indexing an offset table), R-UNSETPAIR (groups without captures give -1 pairs / nil / \"\"), R-NZERO (n == 0 gives nil), R-PREVINIT (the first empty match is not dropped), R-DIALECTSIB (\\w \\d \\s \\b and their forms inside a class pick their ASCII dialect under the same option predicates), R-UNITCMP, R-LAZYTABLE, R-DIRFOLD (shared with C07/C08). " +
 			"That the adapter returns what the standard library returns for a pattern and input is an equality between two engines and is NOT decided.",
 	})
 	register(&Prop{
 		ID:    "C10",
-		Rules: []func(*core.Ctx){RGuard, RPanic, RFatal, RNilMatch, RCatTable, rDirFoldOnly, RIdxSib, RGrowCmp, REmptyIter, RRuneWidth, RMakeArg, RLim5, RUnits, RStartRange, RRuneIdx, RCrawlPair, RErrProp, RTextIdx},
+		Rules: []func(*core.Ctx){RGuard, RPanic, RFatal, RNilMatch, RCatTable, rDirFoldOnly, RIdxSib, RGrowCmp, REmptyIter, RRuneWidth, RMakeArg, RLim5, RUnits, RStartRange, RRuneIdx, RCrawlPair, RErrProp, RTextIdx, RCrawlGuard},
 		Explanation: "R-GUARD: abstract interpretation (lower bound on charsRight(), difference bounds for mirror variables, saved positions) over go/cfg of every function of package syntax that uses the parser's position primitives: each pattern read is proven to be preceded on every path by a sufficient length test; who-may-index p.pattern / who-may-write currentPos; _category index bounds. " +
 			"Decides the parser part of 'no panic on any pattern'. Not decided: index arithmetic outside the parser, non-termination.",
 	})
 	register(&Prop{
 		ID:    "C13",
-		Rules: []func(*core.Ctx){RLim, RLim5, RQuickSame, RErrProp, RErrIdent, RStackRel, RReleaseOwn},
+		Rules: []func(*core.Ctx){RLim, RLim5, RQuickSame, RErrProp, RErrIdent, RStackRel, RReleaseOwn, RTrackGrow, RTakeAll, RCrawlGuard},
 		Explanation: "R-LIM1 who-may-allocate the backtracking stack and SSA proof that every allocation length is clamped by the limit; R-LIM2 who-may-read the limit and forward slice of its value (sizes, bounds, branch conditions, bool result only) plus the end-relative copy/shift shape; R-LIM3 error discipline of ensureStorage/goTo/backtrack/execute and single producer of ErrBacktrackingStackLimit; R-LIM4 push budget per opcode and per emitFragment path against the ensureStorage multiplier, capacity-check comparisons, who-writes runtrack[...]. " +
 			"These are the static ingredients of 'never more than L slots, never a panic, no other influence'. The runtime invariant (free >= K*TrackCount at each backward jump suffices until the next) is NOT proven.",
 	})
 	register(&Prop{
 		ID:    "C12",
-		Rules: []func(*core.Ctx){RStale, RPool, RQuickSame, RSelfRun, RLoopMatch, RCachePair, RStackRel, RStartSet, RRunmatchOwn, RReleaseOwn, RUnits},
+		Rules: []func(*core.Ctx){RStale, RPool, RQuickSame, RSelfRun, RLoopMatch, RCachePair, RStackRel, RStartSet, RRunmatchOwn, RReleaseOwn, RUnits, RResetAll, RCrawlGuard, RTakeAll},
 		Explanation: "R-STALE: interprocedural must-write / may-read-before-write analysis on SSA over every field of the pooled Runner and of the Match it owns, starting at (*Runner).scan with all non-persistent fields stale; R-RESTORE, R-DETACH, R-BUFLEN, R-CACHEKEY: pairing / ordering checks on the pool return path, the detach of handed-out matches, pooled buffer re-slicing and the replacement cache key. " +
 			"Necessary for history independence (a field read before written leaks the previous call). Equality with a fresh Regexp as such is NOT decided.",
 	})
 	register(&Prop{
 		ID:    "C11",
-		Rules: []func(*core.Ctx){RFx, RLock, RClockEnd, ROwn, RProtoCopy, RUnlock, RNoAlias, RExitFresh, RReleaseOwn, RNoUnsafe, RBufEscape},
+		Rules: []func(*core.Ctx){RFx, RLock, RClockEnd, ROwn, RProtoCopy, RUnlock, RNoAlias, RExitFresh, RReleaseOwn, RNoUnsafe, RBufEscape, RFreshRE},
 		Explanation: "R-FX effect confinement: whole-program shared-derived taint on SSA over everything reachable from the match-time API; every write whose target derives from a shared Regexp / Code / global must be one of the lock- or atomic-protected structures. R-LOCK lockset dataflow for those structures. R-OWN ownership of pooled runners and buffers. " +
 			"Decides data-race freedom of the enumerated shared state (a necessary condition of C11). That concurrent results equal sequential ones is NOT decided beyond race freedom plus C12's independence.",
 	})
@@ -69,43 +69,43 @@ func init() {
 	})
 	register(&Prop{
 		ID:    "C02",
-		Rules: []func(*core.Ctx){RFunnel, RQuick, RQuickOmit, RQuickSame, RLiveOps, RWholeText, RRtlFilter, RFFFDFilter, ROrigin, RMask, RStepDecode, RTextEnd, RStartSent, RBoundDec, RNoShortcut, RScanASCII},
+		Rules: []func(*core.Ctx){RFunnel, RQuick, RQuickOmit, RQuickSame, RLiveOps, RWholeText, RRtlFilter, RFFFDFilter, ROrigin, RMask, RStepDecode, RTextEnd, RStartSent, RBoundDec, RNoShortcut, RScanASCII, RResetAll},
 		Explanation: "All entry points reach the one scan funnel (R-FUNNEL, call graph); the capture-free quick program is active only where the returned match is merely nil-tested or read for position (R-QUICK, SSA def-use), and the liveness scan that builds it masks opcode flags (R-MASK); the left-to-right raw-string filter is never consulted for right-to-left programs (R-RTLFILTER, dominance); a filter candidate never becomes the \\G origin (R-ORIGIN, interprocedural taint). " +
 			"These are structural preconditions for the entry points to agree; that scan returns the same result for the same arguments, the index conversions and the Replace/Split folds are decided elsewhere or not at all.",
 	})
 	register(&Prop{
 		ID:    "C03",
-		Rules: []func(*core.Ctx){ROrigin, RMode, RMinLen, RRtlFilter, RFixedDistSib, RTableDom, RLmMin, RDirTrunc, RSentinel, RBumpWalk, RDeadCopy, RFwdOnly, RCaseBit, RLmAlt, RFailProp, RMinLenZero, RCiExact, RNoMatchExit, RLmStart, RGapKind, RSearchStep, RKeepLook, REndZLatest, RRefZero, RSameHay},
+		Rules: []func(*core.Ctx){ROrigin, RMode, RMinLen, RRtlFilter, RFixedDistSib, RTableDom, RLmMin, RDirTrunc, RSentinel, RBumpWalk, RDeadCopy, RFwdOnly, RCaseBit, RLmAlt, RFailProp, RMinLenZero, RCiExact, RNoMatchExit, RLmStart, RGapKind, RSearchStep, RKeepLook, REndZLatest, RRefZero, RSameHay, RByteCand},
 		Explanation: "R-ORIGIN (a candidate proposed by the accelerator never becomes the \\G origin: interprocedural taint from the filter result to scan's textstart), R-MODE (producer/consumer agreement on the find-mode record: every field a finder arm reads is assigned before the mode is set; accepted modes have a finder), R-MINLEN (the minimum-length fact is used only as a bound on the remaining length), R-RTLFILTER, R-TABLEDOM (every entry the Boyer-Moore builder records is within reach of the scanner's lookups: writer/reader guard agreement), R-LMMIN (the landmark-chain search continues from the minimal, not the greedy, end of a landmark). " +
 			"Structural conditions for the accelerator to be a pure accelerator. The arithmetic of each finder and the truth of the facts (C04) are NOT decided.",
 	})
 	register(&Prop{
 		ID:    "C05",
-		Rules: []func(*core.Ctx){RDirCtx, RAtomCtx, RAtomSucc, ROverlapNeg, RMinLenUse, RAtomFlags, ROptLoop, RXField, RAtomMerge, RAtomRep, RSelfShift, REndChild, RBoundSet, RDistinct, RAnchorSrc, REolNl, RLoopOnce, RRuneStr, RBalTransp, REndDir, REqSub, RCondUnwrap},
+		Rules: []func(*core.Ctx){RDirCtx, RAtomCtx, RAtomSucc, ROverlapNeg, RMinLenUse, RAtomFlags, ROptLoop, RXField, RAtomMerge, RAtomRep, RSelfShift, REndChild, RBoundSet, RDistinct, RAnchorSrc, REolNl, RLoopOnce, RRuneStr, RBalTransp, REndDir, REqSub, RCondUnwrap, REnumFull, RRepKind},
 		Explanation: "R-DIRCTX (left-to-right-only reasoning about a Multi's first rune is confined to left-to-right context: local dominance by a direction test or a guarded-call-site fixpoint over the static call graph), R-ATOMCTX (ending-backtracking elimination is invoked only from the five contexts nothing can backtrack into), R-OPTLOOP (a loop's child is treated as following content only under M > 0). " +
 			"These are side conditions every rewrite must respect; the substance of the property (class disjointness, nullability, equality with the un-rewritten pattern) is NOT decided.",
 	})
 	register(&Prop{
 		ID:    "C04",
-		Rules: []func(*core.Ctx){RAcc, RAccCap, RNarrow, RAltMerge, ROptLoop, RNegChars, RDefault, RCompl, RNegFresh, RAltAll, RByteRune, RRuneCut, RMaxAsMin, RCatsToo, RScratch, RFailFirst, RFailProp, RLoopSib, RLookFact, RBufAlias, RDistAdd, RGapKind, RSetComplete, RDirTrunc, RRefZero},
+		Rules: []func(*core.Ctx){RAcc, RAccCap, RNarrow, RAltMerge, ROptLoop, RNegChars, RDefault, RCompl, RNegFresh, RAltAll, RByteRune, RRuneCut, RMaxAsMin, RCatsToo, RScratch, RFailFirst, RFailProp, RLoopSib, RLookFact, RBufAlias, RDistAdd, RGapKind, RSetComplete, RDirTrunc, RRefZero, RMonoFlag},
 		Explanation: "Shape conditions every prefix / set / length analysis must meet for what it publishes to be an over-approximation: R-ACC (accumulate-until-stop protocol on SSA paths), R-ACCCAP (a capped loop expansion reports 'fully processed' only through the cap), R-NARROW (the shared prefix of an alternation only shrinks), R-ALTMERGE (an offset is common to all branches only if every branch was merged), R-OPTLOOP (a loop's child is required only under M > 0), R-NEGCHARS (callers of GetSetChars consult IsNegated), R-DEFAULT (unknown node kinds yield 'know nothing'), R-COMPL (complement-of-one-character constructions guard each half by its own constant end), R-NEGFRESH (the negate flag is set only on sets created on the spot or known empty). " +
 			"That the recorded strings, sets and lengths are right for the pattern's language is a semantic property and is NOT decided.",
 	})
 	register(&Prop{
 		ID:    "C15",
-		Rules: []func(*core.Ctx){RDirAcc, RDirBits, RReverse, RLookDir, RDirCtx, RDirTrunc, RNonNegLen, RAnchorSib, RBmDir, RSib, rDirFoldOnly, RLookFact, REndChild, RTextEnd, REndDir, RDirCount, RStartSent},
+		Rules: []func(*core.Ctx){RDirAcc, RDirBits, RReverse, RLookDir, RDirCtx, RDirTrunc, RNonNegLen, RAnchorSib, RBmDir, RSib, rDirFoldOnly, RLookFact, REndChild, RTextEnd, REndDir, RDirCount, RStartSent, RRoomLTR},
 		Explanation: "Structural carriers of direction: R-DIRACC (who may move the text position), R-DIRBITS (every text-consuming emit carries the node's Rtl bit), R-REVERSE (concatenations are attached reversed), R-LOOKDIR (lookahead clears / lookbehind sets the direction), R-DIRCTX (left-to-right-only reasoning stays in left-to-right context), R-SIB (sibling handlers agree, including on bump()), R-DIRFOLD (folds over the match sequence are direction-aware). " +
 			"That each right-to-left branch computes the mirrored result is NOT decided.",
 	})
 	register(&Prop{
 		ID:    "C16",
-		Rules: []func(*core.Ctx){RSub, RSubFirst, RBitmap, RCaseRecur, RRangeFlush, RCatTable, RNegChars, RFlipAdd, RNegFresh, RKeyInj, ROr20, RWordSib, RCopyAll, RUnionRet, RGapRune, RSetCodec, RCatsToo, RDialectSib, RCatPred, RRangePend, RTentative, RPosixASCII, RUnionNeg, RAnySub, RAddMono, RDistinct, REscLiteral, RNegClear, REnumPos, REqSub, RCatEq},
+		Rules: []func(*core.Ctx){RSub, RSubFirst, RBitmap, RCaseRecur, RRangeFlush, RCatTable, RNegChars, RFlipAdd, RNegFresh, RKeyInj, ROr20, RWordSib, RCopyAll, RUnionRet, RGapRune, RSetCodec, RCatsToo, RDialectSib, RCatPred, RRangePend, RTentative, RPosixASCII, RUnionNeg, RAnySub, RAddMono, RDistinct, REscLiteral, RNegClear, REnumPos, REqSub, RCatEq, RNegToggle, RSpaceArgs},
 		Explanation: "R-SUB (no observer or transformer of a class ignores its subtraction; canonicalize rewrites only under sub == nil; addSet / enumeration operands are tested), R-BITMAP (the ASCII fast path is charInSlow tabulated over exactly 0..127, guarded, never copied, never stale), R-CASERECUR (a subtraction is parsed with the same case flag), R-CATTABLE (a category name is accepted only with a table), R-NEGCHARS (callers of GetSetChars honour negation), R-FLIPADD (members are never added to a class after canonicalize has rewritten it in negated form without restoring the positive form first), R-NEGFRESH (negate is switched on only for sets created on the spot or known empty). " +
 			"Membership itself — range arithmetic, the lowercase tables, category evaluation order — is NOT decided.",
 	})
 	register(&Prop{
 		ID:    "C17",
-		Rules: []func(*core.Ctx){RSlot, RCapsKey, RCapNode, RSkipTaken, ROptStack, RIgnParen, RDigitAcc, RLazyBuf, RLazyFull, RNameOnce, RParserFresh, RNoAlias, RPrescanSib, ROptWrite, RNumCheck, RMapOK, RDigitName, RPrescanState, RNameStart, RTakeAll},
+		Rules: []func(*core.Ctx){RSlot, RCapsKey, RCapNode, RSkipTaken, ROptStack, RIgnParen, RDigitAcc, RLazyBuf, RLazyFull, RNameOnce, RParserFresh, RNoAlias, RPrescanSib, ROptWrite, RNumCheck, RMapOK, RDigitName, RPrescanState, RNameStart, RTakeAll, RDenseEq},
 		Explanation: "R-SLOT (group numbers reach slot indexes only through the number->slot maps, in the writer, the replacement data, GroupByNumber and initMatch; internal GroupByNumber callers pass numbers, not dense indexes), R-CAPNODE (every capture node created by the main parse accounts for its slot like the pre-scan does), R-SKIPTAKEN (a named group gets the next number that is not taken). " +
 			"That the pre-scan and the main parse assign the same numbers in every case, name ordering and duplicate-name rules are NOT decided.",
 	})
@@ -117,7 +117,7 @@ func init() {
 	})
 	register(&Prop{
 		ID:    "C19",
-		Rules: []func(*core.Ctx){RCodec, REscAll, REscLetters, RUnits, RRuneByte, RErrFallback, RKeyInj, RSelfShift, RTrunc, RRangeByte, RDirTrunc, RRuneErr, REscapeOne},
+		Rules: []func(*core.Ctx){RCodec, REscAll, REscLetters, RUnits, RRuneByte, RErrFallback, RKeyInj, RSelfShift, RTrunc, RRangeByte, RDirTrunc, RRuneErr, REscapeOne, REscForms},
 		Explanation: "R-CODEC: the writer's decision tree (escape) and the reader's switch (scanCharEscape) are evaluated from the source and compared: named escapes pairwise, hex digit counts from the value interval and padding on each path against the reader's fixed widths, bare-backslash escapes against the reader's default arm, and `meta` against the parser's character-class table. R-ESCALL: Escape cannot bypass escape(). R-UNITS: byte offsets never become rune positions (taint from strings.Index* / range-string keys to []rune indexes and the parser position). " +
 			"That ^Escape(s)$ matches exactly s needs the parser and engine and is NOT decided.",
 	})
@@ -135,13 +135,13 @@ func init() {
 	})
 	register(&Prop{
 		ID:    "C09",
-		Rules: []func(*core.Ctx){RRepConst, RRepCases, RRepID, RFoldExit, RCommitPos, RCompact, RLoopMatch, rDirFoldOnly, RSlot, RCapsKey, RCachePair, RCompactSib, RFoldSrc, RWholeText, RErrProp, RSplitStride, RRewindFirst, RDollarLit, RUnitCmp, RStartSent, RUnits, RNameStart},
+		Rules: []func(*core.Ctx){RRepConst, RRepCases, RRepID, RFoldExit, RCommitPos, RCompact, RLoopMatch, rDirFoldOnly, RSlot, RCapsKey, RCachePair, RCompactSib, RFoldSrc, RWholeText, RErrProp, RSplitStride, RRewindFirst, RDollarLit, RUnitCmp, RStartSent, RUnits, RNameStart, RRoomLTR, RCountDec},
 		Explanation: "R-REPCONST (encoder and decoder of replacement rules are the same affine map over equal constants), R-REPCASES (every special token has an arm in both expansion functions; the right-to-left expansion collects pieces last-to-first), R-COMPACT (balancing compaction precedes every expansion of the reused match; count discipline of the replace loops), R-DIRFOLD (Split and the replace drivers are direction-aware), R-SLOT (group numbers reach slots through the maps, including inside Split). " +
 			"That the pieces are concatenated with the right text in between, $-grammar ambiguities and identity of $& are NOT decided.",
 	})
 	register(&Prop{
 		ID:    "C14",
-		Rules: []func(*core.Ctx){RLock, RClockEnd, RClockState, RRestart, RPoll, RPeriod, REndCover, RFreshRead, RTickSum, RSelfRun, rStaleOnly, RSentConst, RErrProp, RExitFresh, RNoWrap, RErrIdent, RStartSet, RIgnoreTO, RPadPeriod},
+		Rules: []func(*core.Ctx){RLock, RClockEnd, RClockState, RRestart, RPoll, RPeriod, REndCover, RFreshRead, RTickSum, RSelfRun, rStaleOnly, RSentConst, RErrProp, RExitFresh, RNoWrap, RErrIdent, RStartSet, RIgnoreTO, RPadPeriod, RFreshRE, RTimeoutSrc},
 		Explanation: "Structural skeleton of the timeout machinery only: R-LOCK (fast.start/running under fast.mu, the clock word through sync/atomic), R-CLOCKEND (the clock's end is only raised, under the lock), R-CLOCKSTATE (one place spawns the clock goroutine, under !running; only runClock clears running, after its loop), R-RESTART (a deadline beyond the clock's end always extends the clock), R-POLL (the deadline is polled in scan's and the interpreter's loops), R-STALE (timeout state of a pooled Runner is re-established per call). " +
 			"Every timing statement of the property (no earlier than d, no later than d + a few periods, the stale-clock refresh being right, the goroutine exiting) is NOT decided.",
 	})
